@@ -81,7 +81,7 @@ CHECKS.update({
             "level_text": "TLC enumerates all pairs (history with abnormal ending, next history); the harness runs history 1 then history 2 on the same WebSocket object (connect() twice, and through persist()) and "
                           "history 2 on a fresh object; Mon_C17 (TLC) demands identical observables (events with payloads, decoded writes, call results) for the later connection and pairwise distinct handshake keys.",
             "level_note": _NOTE + "19 endings x 8 continuations x 2 modes; time frozen; compression offered by every object so that compression contexts can leak if they are not reset."},
-    "C18": {"technique": "explicit TLA+ transport model (spec/Transport.tla: kernel buffer, TLS record layer, pending() short-cut, the wait/recv loop) checked by TLC (NoStall, Drained; and the stall is found when the short-cut is removed); every behaviour replayed into the real loop; traces judged by the TLA+ monitor Mon_C18 evaluated by TLC",
+    "C18": {"technique": "explicit TLA+ transport model (spec/Transport.tla: kernel buffer, TLS record layer, pending() short-cut, the wait/recv loop) checked by TLC (NoStall, Drained; and the stall is found when the short-cut is removed) and, for unbounded parameters, by an Apalache inductive invariant (spec/TransportInd.tla); every behaviour replayed into the real loop; traces judged by the TLA+ monitor Mon_C18 evaluated by TLC",
             "level_text": "TLC checks on the transport model that the loop never blocks while bytes that have arrived are unconsumed, for plain and TLS transports, all record sizes / short-read caps / burst "
                           "patterns within the bound, and confirms the model can express the defect (NoStall fails without the pending() short-cut); each behaviour is replayed through the real "
                           "SelectorBase.wait / PollSelector / SelectSelector / KQueueSelector, session loop and parsers on a scaled-down BUFFER_SIZE, plus scenarios with the real constants (16 KiB records, "
